@@ -65,5 +65,53 @@ def task_local_frame(ctx):
     ctx.undecided_clause("radicands r^2+... are positive (true for r>0 or additive terms>0; not needed for the identity)")
 
 
-TASKS_QUICK = ["local_frame"]
+def _pair_setup(ngauss):
+    """pairs: O-C, O-H (special N/O-H form), N-H (special), C-H, H-H"""
+    from contracts.md_common import Obj
+    from contracts.es_common import tore_table
+
+    Z = [8, 6, 8, 1, 7, 1, 6, 1, 1, 1]
+    idxi, idxj = [0, 2, 4, 6, 8], [1, 3, 5, 7, 9]
+    ni = st.tensor([Z[i] for i in idxi])
+    nj = st.tensor([Z[j] for j in idxj])
+    const = Obj(tore=tore_table(), atomic_num=None)
+    alpha = st.symbolic((10,), "alpha")
+    K, L, M = st.symbolic((10, ngauss), "K"), st.symbolic((10, ngauss), "L"), st.symbolic((10, ngauss), "M")
+    rij = st.symbolic((5,), "rij")
+    gam = st.symbolic((5,), "gam")
+    return Z, idxi, idxj, ni, nj, const, alpha, K, L, M, rij, gam
+
+
+def task_core_core(ctx):
+    """O5: pair_nuclear_energy (MNDO, AM1, PM3) = published core-core formulas incl. the N-H / O-H form and the Gaussians."""
+    from spec import nddo
+
+    fn = ctx.under_contract("seqm.seqm_functions.energy:pair_nuclear_energy")
+    for method, ng in (("MNDO", 0), ("AM1", 4), ("PM3", 2)):
+        Z, idxi, idxj, ni, nj, const, alpha, K, L, M, rij, gam = _pair_setup(max(ng, 1))
+
+        def thunk():
+            pars = (alpha,) if method == "MNDO" else (alpha, K, L, M)
+            return fn(None, const, 1, ni, nj, st.tensor(idxi), st.tensor(idxj), rij, None, None, None, None, gam=gam, method=method, parameters=pars)
+
+        ex = ctx.explore(thunk, constants={"a0": real("a0"), "ev": real("ev")}, name="pair_nuclear_energy " + method)
+        if len(ex.paths) != 1 or ex.paths[0].raised is not None:
+            ctx.error(method + ".paths", "%r %s" % ([p.raised for p in ex.paths], ex.paths[0].notes.get("traceback", "")[-600:] if ex.paths else ""))
+            continue
+        En = ex.paths[0].value
+        expf = lambda z: Sym(E.fn("exp", E.node_of(z)))
+        for k in range(5):
+            a, b = idxi[k], idxj[k]
+            ZA, ZB = real("tore%d" % Z[a]), real("tore%d" % Z[b])
+            R = rij.a[k] * real("a0")
+            special = Z[a] in (7, 8) and Z[b] == 1
+            gA = [(K.a[a, g], L.a[a, g], M.a[a, g]) for g in range(ng)]
+            gB = [(K.a[b, g], L.a[b, g], M.a[b, g]) for g in range(ng)]
+            want = nddo.core_core(method, ZA, ZB, gam.a[k], R, alpha.a[a], alpha.a[b], special, gA, gB, expf)
+            ctx.prove_eq("%s.pair[%d-%d]" % (method, Z[a], Z[b]), En.a[k], want)
+    ctx.canary_eq("special-form-matters", real("R") * Sym(E.fn("exp", (-real("al") * real("R")).n)), Sym(E.fn("exp", (-real("al") * real("R")).n)))
+    ctx.assume_note("shape: one pair of each kind O-C, O-H, N-H, C-H, H-H; all parameters, distances and (ss|ss) symbolic")
+
+
+TASKS_QUICK = ["local_frame", "core_core"]
 TASKS_THOROUGH = TASKS_QUICK
